@@ -90,14 +90,18 @@ class Check:
         self.lines = []
 
     def harness_files(self):
-        return [os.path.join(VERIF, "harness", h) for h in self.spec.HARNESS]
+        prep = getattr(self.spec, "prepare", None)
+        if prep and not getattr(self, "_prepared", False):
+            prep()
+            self._prepared = True
+        return [h if os.path.isabs(h) else os.path.join(VERIF, "harness", h) for h in self.spec.HARNESS]
 
     def ref_repo(self):
         return getattr(self.spec, "REF_REPO", None)
 
     def twin(self, kind):
         if kind not in self.native:
-            self.native[kind] = build.build_native(self.pid.lower(), self.harness_files(), defines=getattr(self.spec, "DEFINES", ()),
+            self.native[kind] = build.build_native(getattr(self.spec, "MODULE", self.pid.lower()), self.harness_files(), defines=getattr(self.spec, "DEFINES", ()),
                                                    ref_repo=self.ref_repo(), kind=kind)
         return self.native[kind]
 
@@ -110,7 +114,7 @@ class Check:
     def main(self):
         spec = self.spec
         jobs = spec.jobs(self.tier, self.seed)
-        entries = sorted(set(j["entry"] for j in jobs))
+        entries = sorted(set(j["entry"] for j in jobs) | set(getattr(spec, "ENTRIES", ())))
         keep = list(getattr(spec, "KEEP", ()))
         # start the fast native build in the background (validator); the ASan build only on demand
         bg = {}
@@ -124,13 +128,13 @@ class Check:
         if getattr(spec, "VALIDATE", True):
             th = threading.Thread(target=bgbuild)
             th.start()
-        module = build.build_module(self.pid.lower(), self.harness_files(), entries, defines=getattr(spec, "DEFINES", ()),
+        module = build.build_module(getattr(spec, "MODULE", self.pid.lower()), self.harness_files(), entries, defines=getattr(spec, "DEFINES", ()),
                                     ref_repo=self.ref_repo(), keep=keep)
         t_build = time.time() - self.t0
         for j in jobs:
             j["module"] = module
             j.setdefault("seed", self.seed)
-        results = runner.run_jobs(jobs)
+        results = runner.run_jobs(jobs, cache=not os.environ.get("VERIF_NOCACHE"))
         if th:
             th.join()
         return self.finish(jobs, results, bg, t_build)
@@ -144,6 +148,7 @@ class Check:
                    input_cuts=0, unexplored=0)
         ends, gaps, throws, reach, fns = {}, {}, {}, {}, {}
         errors = []
+        aidfilter = getattr(spec, "owns_violation", None)
         samples = []
         viols = []       # (sig, job, v)
         exhaustive = True
@@ -168,7 +173,11 @@ class Check:
                 fns[k] = fns.get(k, 0) + v
             for sm in r["samples"]:
                 samples.append((r["job"], sm))
+            if r.get("cached"):
+                agg["reused"] = agg.get("reused", 0) + 1
             for v in r["violations"]:
+                if aidfilter and not aidfilter(v):
+                    continue
                 viols.append((self.signature(r["job"], v), r["job"], v))
         if ends.get("engine-gap") or ends.get("unknown") or ends.get("budget"):
             exhaustive = False
@@ -273,6 +282,7 @@ class Check:
             "validation_mismatches": val_mismatch[:10], "build_s": round(t_build, 1),
             "engine_errors": errors[:10],
             "solver": "z3 %s (incremental, python API)" % _z3ver(),
+            "job_results_reused_from_cache": agg.get("reused", 0),
         }
         extra = getattr(spec, "extra_coverage", None)
         if extra:
